@@ -260,5 +260,13 @@ pub fn value_events<W: Write>(em: &mut Emitter<W>) {
         node2.push(json!({"a": nj(a), "b": nj(b), "eq": a == b, "cmp": match a.cmp(b) { std::cmp::Ordering::Less => -1, std::cmp::Ordering::Equal => 0, _ => 1 },
             "same_hash": h(a) == h(b)}));
     } }
-    em.emit(json!({"parent": 0, "op": {"k": "values"}, "edge1": edge1, "edge2": edge2, "node2": node2}));
+    // the named GraphSpecs constructors as points of the 96-element space
+    use graphrs::GraphSpecs;
+    let sj = |s: GraphSpecs| crate::model::SpecsJ::from_specs(&s).to_json();
+    let ctors = json!({
+        "directed": sj(GraphSpecs::directed()), "directed_create_missing": sj(GraphSpecs::directed_create_missing()),
+        "undirected": sj(GraphSpecs::undirected()), "undirected_create_missing": sj(GraphSpecs::undirected_create_missing()),
+        "multi_directed": sj(GraphSpecs::multi_directed()), "multi_undirected": sj(GraphSpecs::multi_undirected()),
+    });
+    em.emit(json!({"parent": 0, "op": {"k": "values"}, "edge1": edge1, "edge2": edge2, "node2": node2, "ctors": ctors}));
 }
